@@ -170,7 +170,8 @@ pub fn read<const N: usize, Ns>(reader: impl Read) -> Result<Mappings<N, Ns>> {
 }
 
 pub(crate) fn unescape(s: String) -> String {
-	// `\\` is a backslash and `\n` a line break, any other backslash stands for itself
+	// `\\` is a backslash, `\n` a line break, `\r` a carriage return, `\t` a tab and `\0` a null character (the escapes of the
+	// tiny v2 format), any other backslash stands for itself
 	let mut out = String::with_capacity(s.len());
 	let mut chars = s.chars();
 	while let Some(c) = chars.next() {
@@ -178,6 +179,9 @@ pub(crate) fn unescape(s: String) -> String {
 			match chars.clone().next() {
 				Some('n') => { chars.next(); out.push('\n'); },
 				Some('\\') => { chars.next(); out.push('\\'); },
+				Some('r') => { chars.next(); out.push('\r'); },
+				Some('t') => { chars.next(); out.push('\t'); },
+				Some('0') => { chars.next(); out.push('\0'); },
 				_ => out.push('\\'),
 			}
 		} else {
@@ -187,7 +191,7 @@ pub(crate) fn unescape(s: String) -> String {
 	out
 }
 pub(crate) fn escape(s: &str) -> String {
-	s.replace('\\', "\\\\").replace('\n', "\\n")
+	s.replace('\\', "\\\\").replace('\n', "\\n").replace('\r', "\\r").replace('\t', "\\t").replace('\0', "\\0")
 }
 
 fn add_comment(javadoc: &mut Option<JavadocMapping>, line: TinyLine) -> Result<()> {
